@@ -953,6 +953,18 @@ Proof.
   rewrite sget_abs, G in R. cbn [option_map] in R. rewrite AC, EL, EK in R. exact R.
 Qed.
 
+(* ---- ORemOut (round 6): Array::remove(index) with size <= index ---- *)
+Lemma step_remout st x i r : Inv st -> step_good st (ORemOut x i r).
+Proof.
+  intros IV. unfold step_good. cbn [step spec_step]. rewrite sget_abs.
+  destruct (getv (svars st) x) as [c|] eqn:G; cbn [option_map]; [|exists false, st; auto].
+  destruct (abs_cont_len (sw st) c) as [EL EK].
+  destruct (abs_cont (sw st) c) as [k l] eqn:AC. cbn [fst snd] in EL, EK. rewrite EL, EK.
+  destruct (out_idx (kind_of c) (clen c) i r) as [[j|]|]; [|exists true, st; auto|exists false, st; auto].
+  pose proof (step_remat st x j IV) as R. unfold step_good in R. cbn [step spec_step] in R.
+  rewrite sget_abs, G in R. cbn [option_map] in R. rewrite AC, EL, EK in R. exact R.
+Qed.
+
 
 (* ---------------------------------------------------------------------------------------- *)
 (* third round                                                                                *)
@@ -1268,4 +1280,5 @@ Proof.
   - apply step_sort; auto.
   - apply step_insvia; auto.
   - apply step_instie; auto.
+  - apply step_remout; auto.
 Qed.
